@@ -12,3 +12,5 @@ CONSTANTS
   MayPause = TRUE
   StopOnAckFailure = TRUE
   RetryAfterPause = FALSE
+  MayStale = FALSE
+  ExitFlushes = TRUE
